@@ -256,6 +256,8 @@ void runVariant(const Json::Value& sc, const std::string& variant, Json::Value& 
     for (auto& p : sc["rm_at_kill"]["paths"]) vk::g_w.rmPaths.push_back(p.asString());
   }
 
+  for (auto& x : sc["empty_at_attempt"]) vk::g_w.emptyAtAttempt.insert(x.asInt());
+
   if (sc.isMember("swap_at_kill")) {
     // mid-run replacement of a cgroup: the directory oomd holds an fd of moves out of the tree (the fd keeps naming it), a
     // stranger with the same child names and other pids sits at its path from then on
@@ -405,6 +407,11 @@ void runVariant(const Json::Value& sc, const std::string& variant, Json::Value& 
   plugin.reset();
   g_hooks.clear();
   run["swapped"] = vk::g_w.swapped;
+  {
+    Json::Value em(Json::arrayValue);
+    for (int c : vk::g_w.emptied) em.append(c);
+    run["emptied"] = em;
+  }
   vh::rmrf(vk::g_w.root + ".away");
   vh::rmrf(vk::g_w.root);
   vk::g_w.root.clear();
